@@ -4,6 +4,9 @@ and writes seeded/<name>/meta.json plus seeded/MATRIX.md. Run the quick checks o
 (the evidence files are rewritten by every run)."""
 import json, os, subprocess, sys, re
 ROOT = os.path.dirname(os.path.dirname(os.path.abspath(__file__)))
+# under "vp run --with-repo" the patches go to the snapshot of /repo, and the checks are pointed at it
+REPO = os.environ.get("VP_RUN_REPO") or os.environ.get("VERIF_REPO") or "/repo"
+ENV = dict(os.environ, VERIF_REPO=REPO)
 S = {
  "C01-1": ("C01", "emitter", "continue of a do...while jumps to the condition instead of the body start; needs a continue bound to a do-while and the loop condition false at that moment", ["C01"]),
  "C01-2": ("C01", "emitter", "labels after a block's final return/end are folded into the terminated chunk; needs a nested block ending in return/end followed only by labels, and a goto to such a label that is taken", ["C01"]),
@@ -125,6 +128,44 @@ S = {
  "C19-r3-2": ("C19", "emitter", "a multi-part string only continues across a line break; needs a gap between parts that starts with a space or tab", ["C19"]),
  "C20-r3-1": ("C20", "parser", "redefinition check through the substitution helper; needs const FOO = FOO before the redefinition", ["C20"]),
  "C20-r3-2": ("C20", "parser", "break scope pushed per case body, never popped for default; needs a switch with default earlier and a stray break later", ["C20"]),
+ "C02-r4-1": ("C02", "emitter", "a '!' written directly before an AutoVar leaf is ignored; needs an AutoVar command in a condition with the ! prefix", ["C02", "C11"]),
+ "C02-r4-2": ("C02", "emitter", "with line markers on an AutoVar leaf no longer runs its command; needs markers + path + an AutoVar leaf", ["C02", "C16", "C11"]),
+ "C03-r4-1": ("C03", "emitter", "constants in a case value substituted only when the value is one token; needs a multi-token case value mentioning a constant", ["C03", "C13"]),
+ "C03-r4-2": ("C03", "emitter", "the no-match jump of a default-less switch does not keep its target label; needs optimize and the continuation reached only by that jump", ["C03", "C05"]),
+ "C04-r4-1": ("C04", "emitter", "default target read before it is assigned; needs a body-less default before the case that owns the shared body", ["C04", "C03"]),
+ "C04-r4-2": ("C04", "emitter", "'has a body' test of switch cases ignores labels; needs a case body made of labels only", ["C04", "C03"]),
+ "C05-r4-1": ("C05", "emitter", "jump-target bookkeeping survives from one inline map script to the next; needs two inline scripts with control flow in one mapscripts", ["C05", "C08"]),
+ "C05-r4-2": ("C05", "emitter", "label-clash check sees only the chunks laid out so far; needs a user label named like a sub-label laid out later in one form only", ["C05", "C20"]),
+ "C06-r4-1": ("C06", "emitter", "inline data of the statement-poryswitch fallback case is dropped; needs the '_' case selected with inline text/moves() in it", ["C06", "C12"]),
+ "C06-r4-2": ("C06", "emitter", "per-script text counter also advances for shared texts; needs a repeated text followed by a new text in one script", ["C06"]),
+ "C07-r4-1": ("C07", "emitter", "'line empty?' asked of the pixel width; needs a line of zero-width words followed by a word that does not fit behind them", ["C07"]),
+ "C07-r4-2": ("C07", "emitter", "named maxLineLength= parsed decimal-only; needs a hex value in the named form", ["C07"]),
+ "C08-r4-1": ("C08", "emitter", "table rows with an identical var/value pair pruned when optimizing; needs optimize and two such rows", ["C08"]),
+ "C08-r4-2": ("C08", "emitter", "define-once guard also remembers labels only referred to; needs a ':' entry naming the generated label of a later inline entry", ["C08"]),
+ "C09-r4-1": ("C09", "emitter", "string type of an inline text leaks to later plain strings of the same command; needs typed then untyped literal in one command", ["C09", "C06"]),
+ "C09-r4-2": ("C09", "emitter", "text line used as a printf format; needs a percent sign in a text", ["C09"]),
+ "C10-r4-1": ("C10", "emitter", "command line built as a printf format; needs a % among argument tokens", ["C10"]),
+ "C10-r4-2": ("C10", "emitter", "shared moves() remembered by per-script index; needs the same movement in inline moves() of two scripts", ["C10", "C06"]),
+ "C11-r4-1": ("C11", "emitter", "result var of a position-configured AutoVar command cached per command name; needs the command twice with different vars", ["C11"]),
+ "C11-r4-2": ("C11", "emitter", "AutoVar command dropped when the false outcome of its leaf ends the script; needs the condition as last statement", ["C11", "C02"]),
+ "C12-r4-1": ("C12", "emitter", "a selected case without inline data registers the inline data of the '_' case; needs both", ["C12", "C06"]),
+ "C12-r4-2": ("C12", "emitter", "a switch given with an empty value counts as not specified; needs -s NAME= (empty value)", ["C12"]),
+ "C13-r4-1": ("C13", "emitter", "value() decides about parentheses from the token count; needs value(K) with K expanding to several tokens", ["C13"]),
+ "C13-r4-2": ("C13", "emitter", "ASCII-only fast path before the constant table; needs a constant whose name starts with a non-ASCII letter", ["C13"]),
+ "C14-r4-1": ("C14", "emitter", ".align 2 dropped for a mart directly after another mart; needs two adjacent marts", ["C14"]),
+ "C14-r4-2": ("C14", "emitter", "movement cut at the last step_end; needs step_end twice in one list", ["C14"]),
+ "C15-r4-1": ("C15", "emitter", "a text(local) makes every later text local; needs a local text before a global one", ["C15"]),
+ "C15-r4-2": ("C15", "emitter", "movement(global)/mart(global) lose their export with line markers; needs markers + path + such a statement", ["C15", "C16"]),
+ "C16-r4-1": ("C16", "emitter", "marker of an inline movement taken from the name token; needs markers and moves()", ["C16"]),
+ "C16-r4-2": ("C16", "emitter", "inline text keeps the position of its command; needs a string starting on a later line than its command", ["C16"]),
+ "C17-r4-1": ("C17", "emitter", "a named maxLineLength= becomes the default of later format() calls; needs an earlier named form and a later call without length", ["C17", "C07"]),
+ "C17-r4-2": ("C17", "emitter", "input path escaped in place at every Emit(); needs markers, a backslash in the path and a second Emit()", ["C17"]),
+ "C18-r4-1": ("C18", "emitter", "a genuine U+FFFD is treated as invalid UTF-8 and panics; needs U+FFFD in the input", ["C18", "C19"]),
+ "C18-r4-2": ("C18", "parser", "unknown command-line default font makes format() fail at line 0; needs -f with an unknown id and a format() call", ["C18"]),
+ "C19-r4-1": ("C19", "emitter", "a comment containing U+FFFD ends early; needs U+FFFD in a comment followed by more text", ["C19"]),
+ "C19-r4-2": ("C19", "parser", "start column of identifiers/numbers assumes a one-byte first character; needs a word starting with a non-ASCII letter", ["C19"]),
+ "C20-r4-1": ("C20", "parser", "text name clash set keyed by (name, string type); needs an explicit text named like a hoisted label with another type", ["C20", "C06"]),
+ "C20-r4-2": ("C20", "parser", "loop scopes restored with the break depth for both stacks; needs a loop inside a switch case and a later stray continue", ["C20"]),
 }
 only = sys.argv[1:]
 rows = []
@@ -136,17 +177,17 @@ for name in sorted(S):
     patch = os.path.join(d, "patch.diff")
     if not os.path.exists(patch):
         print("missing", name); continue
-    r = subprocess.run(["git", "-C", "/repo", "apply", patch], capture_output=True, text=True)
+    r = subprocess.run(["git", "-C", REPO, "apply", patch], capture_output=True, text=True)
     if r.returncode != 0:
         print(name, "patch does not apply", r.stderr[:200]); continue
     res = {}
     try:
         for i in ids:
-            p = subprocess.run([os.path.join(ROOT, "run.sh"), i, "quick"], capture_output=True, text=True, cwd=ROOT)
+            p = subprocess.run([os.path.join(ROOT, "run.sh"), i, "quick"], capture_output=True, text=True, cwd=ROOT, env=ENV)
             m = re.search(r"clause: (\S+)", p.stdout)
             res[i] = {"exit": p.returncode, "violation_lines": len(re.findall(r"^VIOLATION ", p.stdout, re.M)), "first_clause": m.group(1) if m else None}
     finally:
-        subprocess.run(["git", "-C", "/repo", "checkout", "-q", "--", "."])
+        subprocess.run(["git", "-C", REPO, "checkout", "-q", "--", "."])
     meta = {"name": name, "breaks_property": prop, "written_by": "independent sub-agent given only the property text and a scratch worktree of /repo",
             "needs_to_manifest": needs, "demo": {"file": "demo_test.go", "package_dir": pkg, "confirmed": "demo passes on the clean tree, fails with the patch; the pinned suite passes with the patch (tools/try_seed.sh)"},
             "ran": ["git -C /repo apply seeded/%s/patch.diff; ./run.sh %s quick; git -C /repo checkout -- ." % (name, i) for i in ids],
